@@ -3,7 +3,7 @@
 import json, os, shutil, subprocess, sys, re
 pid = sys.argv[1]; n = sys.argv[2] if len(sys.argv) > 2 else "1"
 root = os.path.dirname(os.path.dirname(os.path.abspath(__file__)))
-wt = "/tmp/seed-" + pid
+wt = "/tmp/seed-" + pid + ("" if n == "1" else "-" + n)
 env = dict(os.environ, VERIF_REPO=wt)
 p = subprocess.run(["./check", pid], cwd=root, env=env, stdout=subprocess.PIPE, stderr=subprocess.STDOUT, text=True)
 lines = [l for l in p.stdout.splitlines() if not l.startswith("note:") and not l.startswith("KNOWN-FINDING")]
